@@ -5,7 +5,8 @@ rank of the canonical minimizer; each emitted piece is read[start..start+len], i
 from_slice_bounds on the same read with the same (start, len); from_slice_bounds / from_dna_string tables (left flank ⇔
 start > 0 from base start-1 in the low nibble, right flank ⇔ start+len < read length from base start+len in the high
 nibble, none at a read end); Vmer::from_slice writes every base; plus the minimizer scan itself (C07's abstract scan and
-order tables: the same p-mer wins in every k-mer that contains it)."""
+order tables: the same p-mer wins in every k-mer that contains it).
+Added later: ranked mode of the score table (pre-computed score tables), DnaString::blank."""
 from .. import dt_msp, lemmas, structural
 from . import common
 
